@@ -360,4 +360,44 @@ theorem wfNested_eq_nestedOf {n c t : Nat} {k : Bool} {N : Nested ν α} (h : WF
     simp only [Nested.names]
     congr 1
     exact List.zip_of_prod rfl rfl
+/-- grouping the rows per instance leaves a frame that is already grouped (one block of `t` rows per
+instance, pairwise distinct identifiers) as it is -/
+theorem groupRows_blocks {β : Type} (t : Nat) (ht : 0 < t) (ids : List Int) (blocks : List (List β))
+    (hlen : ids.length = blocks.length) (hblk : ∀ b ∈ blocks, b.length = t) (hnd : ids.Nodup) :
+    groupRows ((ids.map (fun x => List.replicate t x)).flatten) blocks.flatten = blocks.flatten := by
+  unfold groupRows
+  rw [eraseDups_flatMap_replicate t ht ids hnd]
+  congr 1
+  exact map_eq_of_zip (fun id => pick ((ids.map (fun x => List.replicate t x)).flatten) blocks.flatten id)
+    ids blocks hlen (pick_blocks t ids blocks hlen hblk hnd)
+
+theorem groupRows_canonical {n c t : Nat} {X : Arr3 α} (hX : Rect3 n c t X) (ht : 0 < t)
+    (labels : List Int) (hll : labels.length = n) (hnd : labels.Nodup) :
+    groupRows ((labels.map (fun x => List.replicate t x)).flatten) (X.map (transposeW t)).flatten
+      = (X.map (transposeW t)).flatten := by
+  have hX' := rect_swap hX
+  exact groupRows_blocks t ht labels (X.map (transposeW t)) (by rw [hll, hX'.1])
+    (fun b hb => (hX'.2 b hb).1) hnd
+
+/-- C4: `from_multi_index_to_3d_numpy` reads the panel back -/
+theorem fromMITo3d_ok {n c t : Nat} {X : Arr3 α} (hX : Rect3 n c t X) (hn : 0 < n) (hc : 0 < c)
+    (ht : 0 < t) (i tm : String) (hne : i ≠ tm) (names : List ν) (hl : names.length = c) :
+    fromMITo3d (miOf i tm names X) (some i) (some tm) = .ok X := by
+  have hX' := rect_swap hX
+  have hflat : (groupRows ((miRows X).map (·.1.1)) ((miOf i tm names X).rows.map (·.2))).flatten
+      = (X.map (transposeW t)).flatten.flatten := by
+    show (groupRows ((miRows X).map (·.1.1)) ((miRows X).map (·.2))).flatten = _
+    rw [miRows_vals, rect_nTime hX hn hc, miRows_inst hX hn hc,
+      groupRows_canonical hX ht _ (by simp) (nodup_range_int n)]
+  have hI : levelVals (miOf i tm names X) i = .ok ((miRows X).map (·.1.1)) := by
+    simp [levelVals, miOf, hne, pure, Except.pure]
+  have hT : levelVals (miOf i tm names X) tm = .ok ((miRows X).map (·.1.2)) := by
+    simp [levelVals, miOf, hne, Ne.symm hne, pure, Except.pure]
+  unfold fromMITo3d
+  simp only [hI, hT, bind, Except.bind, hflat, instIds_miRows hX hn hc ht, timeIds_miRows hX hn hc,
+    List.length_map, List.length_range, length_flatten_flatten_rect hX']
+  simp only [miOf, hl, if_true]
+  rw [reshape3_flatten hX', swap_swap hX]
+  rfl
+
 end SkVerif.Panel.Lem
